@@ -1,3 +1,7 @@
+/-
+The initial state (`F` = arguments in `AV` order, then `1.0`), what a successful `factorize` is, and
+STAGE A of the soundness theorem: every argument-dependent node of `S` equals its factorised sum.
+-/
 import FfcxProofs.Lemmas.FactorizeRun
 
 namespace Ffcx.IR
